@@ -732,6 +732,10 @@ class Engine(object):
             self._steps += 1
             if self._steps > self.max_steps:
                 raise PathCap("step cap exceeded in %s" % body.path)
+            # leave the loops of this frame whose body does not contain bb (exit edge / zero-iteration exit)
+            while st.loopstack and st.loopstack[-1][2] == fid and st.loopstack[-1][0] == body.path \
+                    and bb not in loops[st.loopstack[-1][1]]["blocks"]:
+                st.loopstack = st.loopstack[:-1]
             if bb in loops:
                 if not self.loop_head(st, body, fid, bb, loops[bb]):
                     return out
@@ -748,6 +752,8 @@ class Engine(object):
                 bb = t["target"]
                 continue
             if k == "return":
+                while st.loopstack and st.loopstack[-1][2] == fid:
+                    st.loopstack = st.loopstack[:-1]
                 self._paths += 1
                 if self._paths > self.max_paths:
                     raise PathCap("path cap exceeded in %s" % body.path)
